@@ -1,12 +1,15 @@
 #!/bin/bash
-# usage: tools/phaseB.sh name1 name2 ...   names: c02_m1 (wave 1, /tmp/mut_c02/deliver/m1), w2_c02_m1 (/tmp/mut2_c02/...), w3_c02_m1 (/tmp/mut3_c02/...)
-for n in "$@"; do
+# usage: tools/phaseB.sh name1 name2[@Cnn] ...   names: c02_m1 (wave 1, /tmp/mut_c02/deliver/m1), w2_c02_m1 (/tmp/mut2_c02/...), w3_c02_m1 (/tmp/mut3_c02/...)
+for arg in "$@"; do
+  n=${arg%%@*}; other=""; [[ "$arg" == *@* ]] && other=${arg##*@}
   case "$n" in
     w2_*) r=${n#w2_}; x=${r%%_*}; m=${r##*_}; src=/tmp/mut2_$x/deliver/$m;;
     w3_*) r=${n#w3_}; x=${r%%_*}; m=${r##*_}; src=/tmp/mut3_$x/deliver/$m;;
     *) x=${n%%_*}; m=${n##*_}; src=/tmp/mut_$x/deliver/$m;;
   esac
   P=$(echo $x | tr c C)
+  # name@C09: run another property's check against this change (results under <name>_c09)
+  if [ -n "$other" ]; then P=$other; n=${n}_$(echo $other | tr C c); fi
   rm -f /verif/scratch/mut/$n/b.txt
   /verif/tools/eval_mutant.sh $P $src $n B > /verif/scratch/mut_$n.B.log 2>&1
   echo "$n: $(tr '\n' ' ' < /verif/scratch/mut/$n/b.txt)"
